@@ -30,12 +30,18 @@ func buildReferenceGraph(values map[string][]token) map[string][]string {
 
 // nodeContainsCycle checks for a cycle in graph by performing a depth first traversal
 // recursively, starting from node, and passing the visited nodes to stop if a cycle
-// is found
-func nodeContainsCycle(node string, graph map[string][]string, visited []string) (bool, string) {
+// is found. Nodes whose whole subgraph has been searched without finding a cycle are
+// recorded in done and never searched again, which keeps the search linear in the
+// size of the graph instead of enumerating every path.
+func nodeContainsCycle(node string, graph map[string][]string, visited []string, done map[string]bool) (bool, string) {
+	if done[node] {
+		return false, ""
+	}
 	visited = append(visited, node)
 
 	symRefs, ok := graph[node]
 	if !ok {
+		done[node] = true
 		return false, ""
 	}
 
@@ -43,18 +49,20 @@ func nodeContainsCycle(node string, graph map[string][]string, visited []string)
 		if slices.Contains(visited, ref) {
 			return true, ref
 		}
-		subCycle, key := nodeContainsCycle(ref, graph, visited)
+		subCycle, key := nodeContainsCycle(ref, graph, visited, done)
 		if subCycle {
 			return true, key
 		}
 	}
 
+	done[node] = true
 	return false, ""
 }
 
 func graphContainsCycle(graph map[string][]string) (bool, string) {
+	done := make(map[string]bool)
 	for key := range graph {
-		nodeCycle, cycleKey := nodeContainsCycle(key, graph, []string{})
+		nodeCycle, cycleKey := nodeContainsCycle(key, graph, []string{}, done)
 		if nodeCycle {
 			return true, cycleKey
 		}
